@@ -87,6 +87,26 @@ def run(fx, rep):
     for p in sorted(paths):
         rep.check(p in visited, 'R1', 'collector-visits/%s' % p, col.loc(), 'reaches a recursive _references call',
                   'expression field %s is never visited by the reference collector: names used only there are not reported' % p)
+    # the visit of a field may depend only on the shape of the node on its own access path (variant dispatch, the
+    # Some-ness of an optional child, the availability of a list element), never on another field's value
+    from .c01 import edge_conditions
+    for bi, t in col.calls():
+        if not (F.resolved_callee(t) and F.norm_path(col.path) == F.resolved_callee(t)):
+            continue
+        ps = sorted({short_path(ast_path(term)) for term in pv.of_operand(t['args'][0])})
+        bad = []
+        for term, truth in edge_conditions(col, pv, bi):
+            tt = term
+            okc = False
+            if tt[0] == 'discr':
+                okc = True            # match on a variant / Option / iterator item
+            elif tt[0] == 'call' and tt[1] in ('std::option::Option::is_some', 'std::option::Option::is_none'):
+                okc = True
+            if not okc:
+                bad.append(F.term_str(tt)[:80])
+        for p_ in ps:
+            rep.check(not bad, 'R1', 'collector-visits-unconditionally/%s' % p_, F.loc_of(t['span']), 'visited whenever the node has this child',
+                      'the visit of %s is conditional on %s: names used only there are not reported in that case' % (p_, bad))
     for p in sorted(visited - paths):
         rep.violation('R1', 'collector-unknown-path/%s' % p, col.loc(), 'collector recurses into %s, which is not an expression field by the type definitions (model out of date: fail closed)' % p)
     m = EvalModel(fx)
